@@ -52,6 +52,7 @@ type hammerOp struct {
 func runRace(c *core.Ctx) {
 	r := c.Rng
 	seedShim(c, "C05R")
+	clearAppCache()
 	K := r.Range(4, 8)
 	work := 5
 	g, err := chainkit.BuildGenesis(chainkit.GenesisOpts{Seed: r.Uint64(), NumAccounts: work + K, Powers: []int64{10, 10, 10, 10}, Tokens: tokenIDs(), TokenBalance: big.NewInt(1000000000)})
@@ -88,6 +89,8 @@ func runRace(c *core.Ctx) {
 	for h := 1; h <= blocks; h++ {
 		height := uint64(h)
 		w.fill(height, r.Range(6, 24))
+		cc.cacheSnaps = nil
+		cc.noteExec()
 		block, parts, why, err := propose(P, lastCommit, uint64(chainkit.FixedTime.Unix())+height)
 		if err != nil {
 			c.Violation("proposer/prerun-panic/"+why, fmt.Sprintf("height %d: %v", height, err), map[string]interface{}{"height": height, "error": err.Error(), "chain": cc.sample})
@@ -104,6 +107,7 @@ func runRace(c *core.Ctx) {
 		c.Count("blocks", 1)
 		c.Count("block_txs", int64(len(kinds)))
 
+		cc.diagParts, cc.diagDBs = parts, copyDBs(ref.DBs)
 		// sequential executions: reference replica, then the proposer itself
 		var refRec, refPost *record
 		var receipts types.Receipts
@@ -113,6 +117,7 @@ func runRace(c *core.Ctx) {
 				c.Violation("decode/own-proposal", err.Error(), nil)
 				return
 			}
+			cc.noteExec()
 			ok, why, pan := checkBlock(rp.n, fb, runtime.GOMAXPROCS(0))
 			if pan != nil {
 				c.Violation("validator/checkblock-panic", fmt.Sprintf("height %d replica %q: %v", height, rp.kind, pan), map[string]interface{}{"height": height, "block_tx_kinds": kinds})
